@@ -1,5 +1,6 @@
 pub mod c04;
 pub mod c15;
+pub mod c18;
 pub mod mrp_oracles;
 pub mod mrp_props;
 
@@ -31,5 +32,6 @@ pub fn registry() -> Vec<PropertyDef> {
     v.extend(mrp_props::defs());
     v.extend(c04::defs());
     v.extend(c15::defs());
+    v.extend(c18::defs());
     v
 }
